@@ -124,8 +124,12 @@ def extract_type(spec):
         raw = find_semi_item(src, *spec["semi"])
     else:
         loc = find_item(src, spec["path"])
-        raw = src[loc["start"]:loc["end"]]
+        raw = src[loc["attrs_start"]:loc["end"]]
     text, dropped = strip_attrs(raw)
+    keep = [d for d in ("Clone", "Copy") if any(re.search(r"derive\([^)]*\b%s\b" % d, a) for a in dropped)]
+    if "Copy" in keep:
+        # Verus accepts derive(Clone, Copy); the other derives (Debug, Display, PartialEq, ...) are dropped
+        text = "#[derive(Clone, Copy)]\n" + text
     for old, new in spec.get("rewrites", []):
         text = text.replace(old, new)
     if spec.get("pub_fields", True) and re.match(r"\s*(pub(\([a-z]+\))?\s+)?struct\b", text) and "{" in text:
@@ -196,6 +200,7 @@ def build_file(unit, units_by_id, prelude_text, types_text, machine_text, out_pa
     # emitted inside that module's block)
     stub_notes = []
     same_mod_stubs = []
+    groups = {}
     for sid in unit.get("stubs", []):
         su = units_by_id[sid]
         sfn = extract_fn(su)
@@ -205,9 +210,11 @@ def build_file(unit, units_by_id, prelude_text, types_text, machine_text, out_pa
         if su.get("mod") and su.get("mod") == unit.get("mod") and not su.get("impl") and not unit.get("impl"):
             same_mod_stubs.append(item)
         else:
-            pre, _, post = wrap_item(su, "")
-            parts.append(f"{pre}{item}{post}\n")
+            groups.setdefault((su.get("mod"), su.get("impl")), []).append(item)
         stub_notes.append(sid)
+    for (m, im), items in groups.items():
+        pre, _, post = wrap_item(dict(mod=m, impl=im), "")
+        parts.append(pre + "".join(items) + post + "\n")
     for frag in unit.get("fragments", []):
         parts.append(open(os.path.join(VERIF, "verus", frag + ".rs")).read())
     if unit.get("extra"):
